@@ -15,7 +15,7 @@ import (
 func init() {
 	register(&Prop{
 		ID:          "C12",
-		Explanation: "Decides the shape of the refresh protocol (not its schedules): the provider refresh function value is called only in refreshSession, which is called only from refreshSessionIfNeeded; that call site is reached only on paths where ObtainLock returned nil, then SessionStore.Load returned a non-nil session without error, the request's session object was overwritten from it, and a needsRefresh evaluated after the overwrite was true; on every path on which the lock was obtained the deferred function that releases it has been registered, and that function calls ReleaseLock on every path with a non-nil session; once the first needsRefresh is true the function returns nil only because the post-reload needsRefresh was false, or returns validateSession's verdict evaluated after the refresh attempt; validateSession returns nil only if the session is not expired and the provider validator accepted it; getValidatedSession returns a nil session with every error and the loader calls store.Clear for every error other than ErrNoCookie; Manager.Save mints a new ticket only when the request's ticket could not be decoded and otherwise saves under the request's ticket; the redis lock maps redislock's sentinels to the session-lock sentinels the middleware's retry loop tests. Added during the build: Manager.Clear expires the cookie on every path (R8, shared with C11.R2); every provider redeemRefreshToken stores access token, issue time, expiry and — when the response carries one — the refresh token on every success path (R9). Round 3: Age() is Clock.Now() (truncated by at most one second) minus *CreatedAt, unrounded, and needsRefresh is Age() > period (R10); the token-validation helper answers true only for status 200 (R11). Round 4: the cookie store's Save expires every presented session cookie it did not overwrite, so a refreshed session supersedes what the browser holds (R12, shared with C10.R4); every Provider.ValidateSession answers true only as, or after, a true verdict of validateToken or of the ValidateSession it embeds, or after an error-free ID-token verification (R13). needsRefresh may be folded into its caller: the staleness test is then recognised as the comparison Age() > refreshPeriod itself.",
+		Explanation: "Decides the shape of the refresh protocol (not its schedules): the provider refresh function value is called only in refreshSession, which is called only from refreshSessionIfNeeded; that call site is reached only on paths where ObtainLock returned nil, then SessionStore.Load returned a non-nil session without error, the request's session object was overwritten from it, and a needsRefresh evaluated after the overwrite was true; on every path on which the lock was obtained the deferred function that releases it has been registered, and that function calls ReleaseLock on every path with a non-nil session; once the first needsRefresh is true the function returns nil only because the post-reload needsRefresh was false, or returns validateSession's verdict evaluated after the refresh attempt; validateSession returns nil only if the session is not expired and the provider validator accepted it; getValidatedSession returns a nil session with every error and the loader calls store.Clear for every error other than ErrNoCookie; Manager.Save mints a new ticket only when the request's ticket could not be decoded and otherwise saves under the request's ticket; the redis lock maps redislock's sentinels to the session-lock sentinels the middleware's retry loop tests. Added during the build: Manager.Clear expires the cookie on every path (R8, shared with C11.R2); every provider redeemRefreshToken stores access token, issue time, expiry and — when the response carries one — the refresh token on every success path (R9). Round 3: Age() is Clock.Now() (truncated by at most one second) minus *CreatedAt, unrounded, and needsRefresh is Age() > period (R10); the token-validation helper answers true only for status 200 (R11). Round 4: the cookie store's Save expires every presented session cookie it did not overwrite, so a refreshed session supersedes what the browser holds (R12, shared with C10.R4); every Provider.ValidateSession answers true only as, or after, a true verdict of validateToken or of the ValidateSession it embeds, or after an error-free ID-token verification (R13). needsRefresh may be folded into its caller: the staleness test is then recognised as the comparison Age() > refreshPeriod itself. Round 5: the stored-session loader's refresh and validation callbacks are the provider's own method values and the loader keeps them as given (R14).",
 		NotDecided:  "'exactly one refresh' under interleavings, lock expiry versus identity-provider latency, token rotation at the provider: schedules and histories are not explored.",
 		Run:         runC12,
 	})
@@ -158,6 +158,7 @@ func runC12(c *Ctx) {
 	r.Rule("R11-validation-needs-200", "the token-validation helper behind ValidateSession answers true only for status 200 of an error-free request with a non-empty token (shared with C14.R7)", 1)
 	r.Rule("R12-saved-session-supersedes", "a re-saved (refreshed) cookie session replaces what the browser holds: Save expires every presented session cookie it did not overwrite (shared with C10.R4)", 3)
 	r.Rule("R13-validator-asks-provider", "every Provider.ValidateSession answers true only after validateToken or the embedded ValidateSession answered true, or the ID-token verifier returned no error", 10)
+	r.Rule("R14-loader-wired-to-provider", "the stored-session loader's refresh and validation callbacks are the provider's own RefreshSession and ValidateSession method values, and the loader keeps them as given", 4)
 	r.Rule("R7-lock-sentinels", "redis lock maps redislock sentinels to the session-lock sentinels the retry loop tests", 6)
 
 	rule := "R1-single-refresh-site"
@@ -279,77 +280,12 @@ func runC12(c *Ctx) {
 	runC14R7(c, "R11-validation-needs-200")
 	runC10R4(c, "R12-saved-session-supersedes")
 	runValidatorAsksProvider(c, "R13-validator-asks-provider")
+	runC12R14(c, "R14-loader-wired-to-provider")
 
 	runTicketReuseRule(c, "R6-ticket-reuse")
 
 	// ---- R7 ---------------------------------------------------------------------------------
-	rule = "R7-lock-sentinels"
-	mapping := []struct{ fn, from, to string }{
-		{"(*pkg/sessions/redis.Lock).Obtain", "github.com/bsm/redislock.ErrNotObtained", "pkg/apis/sessions.ErrLockNotObtained"},
-		{"(*pkg/sessions/redis.Lock).Refresh", "github.com/bsm/redislock.ErrNotObtained", "pkg/apis/sessions.ErrNotLocked"},
-		{"(*pkg/sessions/redis.Lock).Release", "github.com/bsm/redislock.ErrLockNotHeld", "pkg/apis/sessions.ErrNotLocked"},
-	}
-	for _, m := range mapping {
-		fn := c.Fn(rule, m.fn)
-		if fn == nil {
-			continue
-		}
-		m := m
-		mapped := false
-		c.Walk(rule, fn, func(p *walk.Path) {
-			ret, ok := p.ReturnDV(errResultIndex(fn.Signature))
-			if !ok {
-				return
-			}
-			at := p.End()
-			var isTrue, isFalse bool
-			for _, a := range p.Atoms(at) {
-				if call, ok := a.DV.V.(*ssa.Call); ok && !a.IsNil && isStd(&call.Call, "errors", "Is") && globalLoad(call.Call.Args[1]) == m.from {
-					if a.Val {
-						isTrue = true
-					} else {
-						isFalse = true
-					}
-				}
-			}
-			g := prog.Short(globalLoad(p.Resolve(ret).V))
-			key := "maps|" + fnKey(fn)
-			switch {
-			case isTrue && g == m.to:
-				mapped = true
-				c.ok(rule, key, p.Exit, m.from[strings.LastIndex(m.from, ".")+1:]+" -> "+m.to[strings.LastIndex(m.to, ".")+1:])
-			case isTrue:
-				c.bad(rule, key, p.Exit, "redislock's "+m.from+" is not translated to "+m.to, p, at)
-			case g == m.to && !isFalse && g == "pkg/apis/sessions.ErrNotLocked":
-				// returned for a lock that was never obtained (l.lock == nil)
-				c.ok(rule, key+"|no-lock", p.Exit, "no lock object: ErrNotLocked")
-			case g == m.to:
-				c.bad(rule, key, p.Exit, m.to+" is returned for an error that is not redislock's "+m.from, p, at)
-			}
-		})
-		if !mapped {
-			c.bad(rule, "maps|"+fnKey(fn), fn.Blocks[0].Instrs[0], "no path translates "+m.from+" to "+m.to+": the middleware's retry/unlock handling never sees the sentinel it tests", nil, 0)
-		}
-	}
-	// the retry loop tests the same sentinel
-	tests := false
-	for fn := range c.staticReach(rin, 2) { // the loop may live in a helper of refreshSessionIfNeeded
-		if prog.Short(prog.FnPkg(fn).Path()) != "pkg/middleware" {
-			continue
-		}
-		for _, b := range fn.Blocks {
-			for _, in := range b.Instrs {
-				if call, ok := in.(*ssa.Call); ok && isStd(&call.Call, "errors", "Is") && prog.Short(globalLoad(call.Call.Args[1])) == "pkg/apis/sessions.ErrLockNotObtained" {
-					tests = true
-				}
-			}
-		}
-	}
-	if tests {
-		c.ok(rule, "retry-tests|"+fnKey(rin), rin.Blocks[0].Instrs[0], "retry loop tests errors.Is(err, sessions.ErrLockNotObtained)")
-	} else {
-		c.bad(rule, "retry-tests|"+fnKey(rin), rin.Blocks[0].Instrs[0], "the retry loop does not test sessions.ErrLockNotObtained", nil, 0)
-	}
+	runLockSentinelRule(c, "R7-lock-sentinels")
 }
 
 // checkRefreshProtocol (C12.R2, also C13): the provider refresh is reached only after lock -> reload -> overwrite -> re-check.
@@ -867,6 +803,150 @@ func runValidatorAsksProvider(c *Ctx, rule string) {
 		})
 		if !bad {
 			c.R.OK(rule, key, c.P.Pos(impl.Pos()), sprintf("%d possibly-true return(s), each a provider-backed verdict", n))
+		}
+	}
+}
+
+// runLockSentinelRule (C12.R7, also C11.R8): the redis lock translates redislock's sentinels into the session-lock
+// sentinels, and the middleware's retry loop tests exactly the one Obtain returns for a busy lock. A request that meets
+// a refresh in flight — a sign-out in particular — then waits for it instead of acting on the stale stored session.
+func runLockSentinelRule(c *Ctx, rule string) {
+	rin := c.Fn(rule, "(*pkg/middleware.storedSessionLoader).refreshSessionIfNeeded")
+	if rin == nil {
+		return
+	}
+	mapping := []struct{ fn, from, to string }{
+		{"(*pkg/sessions/redis.Lock).Obtain", "github.com/bsm/redislock.ErrNotObtained", "pkg/apis/sessions.ErrLockNotObtained"},
+		{"(*pkg/sessions/redis.Lock).Refresh", "github.com/bsm/redislock.ErrNotObtained", "pkg/apis/sessions.ErrNotLocked"},
+		{"(*pkg/sessions/redis.Lock).Release", "github.com/bsm/redislock.ErrLockNotHeld", "pkg/apis/sessions.ErrNotLocked"},
+	}
+	for _, m := range mapping {
+		fn := c.Fn(rule, m.fn)
+		if fn == nil {
+			continue
+		}
+		m := m
+		mapped := false
+		c.Walk(rule, fn, func(p *walk.Path) {
+			ret, ok := p.ReturnDV(errResultIndex(fn.Signature))
+			if !ok {
+				return
+			}
+			at := p.End()
+			var isTrue, isFalse bool
+			for _, a := range p.Atoms(at) {
+				if call, ok := a.DV.V.(*ssa.Call); ok && !a.IsNil && isStd(&call.Call, "errors", "Is") && globalLoad(p.Resolve(p.Op(call.Call.Args[1], a.DV)).V) == m.from { // operand resolved through an inlined translating helper
+					if a.Val {
+						isTrue = true
+					} else {
+						isFalse = true
+					}
+				}
+			}
+			g := prog.Short(globalLoad(p.Resolve(ret).V))
+			key := "maps|" + fnKey(fn)
+			switch {
+			case isTrue && g == m.to:
+				mapped = true
+				c.ok(rule, key, p.Exit, m.from[strings.LastIndex(m.from, ".")+1:]+" -> "+m.to[strings.LastIndex(m.to, ".")+1:])
+			case isTrue:
+				c.bad(rule, key, p.Exit, "redislock's "+m.from+" is not translated to "+m.to, p, at)
+			case g == m.to && !isFalse && g == "pkg/apis/sessions.ErrNotLocked":
+				// returned for a lock that was never obtained (l.lock == nil)
+				c.ok(rule, key+"|no-lock", p.Exit, "no lock object: ErrNotLocked")
+			case g == m.to:
+				c.bad(rule, key, p.Exit, m.to+" is returned for an error that is not redislock's "+m.from, p, at)
+			}
+		})
+		if !mapped {
+			c.bad(rule, "maps|"+fnKey(fn), fn.Blocks[0].Instrs[0], "no path translates "+m.from+" to "+m.to+": the middleware's retry/unlock handling never sees the sentinel it tests", nil, 0)
+		}
+	}
+	// the retry loop tests the same sentinel
+	tests := false
+	for fn := range c.staticReach(rin, 2) { // the loop may live in a helper of refreshSessionIfNeeded
+		if prog.Short(prog.FnPkg(fn).Path()) != "pkg/middleware" {
+			continue
+		}
+		for _, b := range fn.Blocks {
+			for _, in := range b.Instrs {
+				if call, ok := in.(*ssa.Call); ok && isStd(&call.Call, "errors", "Is") && prog.Short(globalLoad(call.Call.Args[1])) == "pkg/apis/sessions.ErrLockNotObtained" {
+					tests = true
+				}
+			}
+		}
+	}
+	if tests {
+		c.ok(rule, "retry-tests|"+fnKey(rin), rin.Blocks[0].Instrs[0], "retry loop tests errors.Is(err, sessions.ErrLockNotObtained)")
+	} else {
+		c.bad(rule, "retry-tests|"+fnKey(rin), rin.Blocks[0].Instrs[0], "the retry loop does not test sessions.ErrLockNotObtained", nil, 0)
+	}
+}
+
+// runC12R14: R4 and R13 decide what validateSession and the provider's ValidateSession do; this rule decides that the
+// two are connected. Every StoredSessionLoaderOptions literal in non-test module code stores into ValidateSession /
+// RefreshSession the bound method value provider.ValidateSession / provider.RefreshSession of a providers.Provider
+// (no wrapper that answers for the provider), and NewStoredSessionLoader copies the two option fields unchanged into
+// the loader's sessionValidator / sessionRefresher.
+func runC12R14(c *Ctx, rule string) {
+	optV := c.Field(rule, "pkg/middleware.StoredSessionLoaderOptions.ValidateSession")
+	optR := c.Field(rule, "pkg/middleware.StoredSessionLoaderOptions.RefreshSession")
+	ldV := c.Field(rule, "pkg/middleware.storedSessionLoader.sessionValidator")
+	ldR := c.Field(rule, "pkg/middleware.storedSessionLoader.sessionRefresher")
+	ctor := c.Fn(rule, "pkg/middleware.NewStoredSessionLoader")
+	if optV == nil || optR == nil || ldV == nil || ldR == nil || ctor == nil {
+		return
+	}
+	boundMethod := func(v ssa.Value, want string) bool {
+		mc, ok := unwrap0(v).(*ssa.MakeClosure)
+		if !ok {
+			return false
+		}
+		fn, ok := mc.Fn.(*ssa.Function)
+		if !ok || !strings.HasPrefix(fn.Synthetic, "bound method wrapper") || !strings.HasPrefix(fn.Name(), want+"$bound") {
+			return false
+		}
+		return len(mc.Bindings) == 1 && strings.HasSuffix(mc.Bindings[0].Type().String(), "providers.Provider")
+	}
+	for _, pair := range []struct {
+		f    *types.Var
+		name string
+	}{{optV, "ValidateSession"}, {optR, "RefreshSession"}} {
+		n := 0
+		for _, ref := range c.fieldRefs(pair.f) {
+			if ref.Store == nil {
+				continue
+			}
+			n++
+			key := "wired|" + pair.name + "|" + fnKey(ref.Fn)
+			if boundMethod(ref.Store.Val, pair.name) {
+				c.ok(rule, key, ref.In, "provider."+pair.name+" (bound method value)")
+			} else {
+				c.R.Bad(rule, key, c.pos(ref.In), "the stored-session loader's "+pair.name+" callback is not the provider's own method value: something in between can answer for the identity provider (a stale session accepted without the provider having been asked)", nil, nil)
+			}
+		}
+		if n == 0 {
+			c.R.Unknown(rule, "wired|"+pair.name, "-", "no StoredSessionLoaderOptions literal sets "+pair.name)
+		}
+	}
+	for _, pair := range []struct {
+		to, from *types.Var
+	}{{ldV, optV}, {ldR, optR}} {
+		n := 0
+		for _, ref := range c.fieldRefs(pair.to) {
+			if ref.Store == nil {
+				continue
+			}
+			n++
+			key := "kept|" + pair.to.Name() + "|" + fnKey(ref.Fn)
+			if ref.Fn == ctor && isFieldLoadOf(ref.Store.Val, pair.from) {
+				c.ok(rule, key, ref.In, "copied from the options unchanged")
+			} else {
+				c.R.Bad(rule, key, c.pos(ref.In), "the loader's "+pair.to.Name()+" is set from something other than the option field the caller filled", nil, nil)
+			}
+		}
+		if n == 0 {
+			c.R.Unknown(rule, "kept|"+pair.to.Name(), "-", "the loader's "+pair.to.Name()+" is never set")
 		}
 	}
 }
